@@ -75,6 +75,25 @@ CHECKS.update({
         note='The oversized-number server error inherited from the C01 int() finding is a known finding.', ref='3/C18'),
 })
 
+CHECKS.update({
+    'C07': dict(
+        technique='reference-model monitor: validate() of 19 identifier modules vs independent transcriptions of the standards (vm/refs.py, no library code) on compact fixed points and display forms; exhaustive payload sweeps in the thorough tier',
+        text='Corpus + synthesised numbers, every single-edit neighbour, random strings of every length, every country prefix of the shared tables, hostile ASCII, well-formed accounts for every IBAN structure; (accepted?, canonical form) must agree. Held = no unlisted disagreement.',
+        note='The references are as good as my reading of the standards; nine disagreements of the unchanged tree (LEI length, check letters, 00/01/99 check digits, mixed-case Bech32, two missing FIGI prefixes) were read against the texts and are known findings.', ref='3/C07'),
+    'C08': dict(
+        technique='relational monitor over a conversion table: real target validate(), embedding predicate and inverse conversion on canonical forms',
+        text='About 60 conversion rows x corpus + synthesised (leading zeros, rare alphabet characters, digits-only shapes) valid sources x presentations. Held = every conversion returns something the target accepts, embedding the source and undone by its inverse; documented refusals are the only accepted ValidationErrors.',
+        note='The table is written from the statement; conversions outside it are not covered.', ref='3/C08'),
+    'C09': dict(
+        technique='relational monitor: wrapper outcome vs an independent projection onto its constituents (own member-state table, own prefix handling), plus alias resolution vs the package __init__ files',
+        text='50 relations (eu.vat per prefix, vatin, us.tin/be.ssn/th.tin unions, es.nif, iban vs generic+national, seven simple wrappers, aliases) x constituent numbers in bare/prefixed/lower/spaced form, single-edit neighbours, foreign prefixes, generic-valid nationally-invalid IBANs. Held = equivalence on all of them.',
+        note='Projections are my reading of the statement; one disagreement of the unchanged tree (vatin rejects EU/IM one-stop-shop numbers) is a known finding.', ref='3/C09'),
+    'C12': dict(
+        technique='runtime contract monitor on every discovered getter + per-module field map as independent model of "agrees with the digits"',
+        text='79 (module, getter) pairs x corpus, synthesised, registry-derived and date-forced valid numbers (leap days of leap and non-leap years, unknown parts, century markers, 12-digit and +/- spellings) x clock sweep. Held = total (value or ValidationError), dates agree with digits and with year/month getters, gender in {M,F}, split() concatenates.',
+        note='Field maps are written from the module documentation; three getters of the unchanged tree fail and are known findings.', ref='3/C12'),
+})
+
 NOT_YET = 'monitor designed in DESIGN.md but not built yet in this round'
 
 
